@@ -249,9 +249,9 @@ class C14(Suite):
     case_ty = "case"
     obs_ty = "obs"
     kf = "kf"
-    kf_ids = {1: "FC14a"}
+    kf_ids = {1: "FC14a", 2: "FC14b"}
     corr = "compare.isomorphic/to_isomorphic/to_canonical_graph/graph_diff, Graph.skolemize/de_skolemize"
-    quick_n = 400
+    quick_n = 150
     thorough_n = 12000
     timeout_s = 20.0
 
@@ -436,7 +436,7 @@ class C14Skolem(Suite):
     oeq = "sk_obs_eqb"
     spec = "sk_spec_ok"
     corr = "BNode.skolemize, URIRef.de_skolemize, RDFLibGenid._is_rdflib_skolem, Genid._is_external_skolem, Graph.skolemize/de_skolemize"
-    quick_n = 300
+    quick_n = 60
     thorough_n = 6000
     timeout_s = 10.0
 
@@ -515,4 +515,161 @@ class C14Skolem(Suite):
                 yield dict(case, **{k: case[k][:i] + case[k][i + 1:]})
 
 
-SUITES = [C14(), C14Skolem()]
+# ---------------------------------------------------------------------- histories on live objects
+class C14History(Suite):
+    """objs[i] = to_isomorphic(g_i); in-place add/remove (mostly size-preserving re-wirings) interleaved with
+    == / != comparisons, each judged by iso_dec on the contents at that moment"""
+    name = "history"
+    imports = "From RV Require Import Iso.Model Iso.History."
+    case_ty = "hcase"
+    obs_ty = "hobs"
+    model = "h_model_obs"
+    oeq = "hobs_eqb"
+    spec = "h_spec_ok"
+    corr = "compare.to_isomorphic, IsomorphicGraph.__eq__/__ne__/internal_hash, Graph.add/remove on an IsomorphicGraph"
+    quick_n = 80
+    thorough_n = 4000
+    timeout_s = 30.0
+
+    # case = {"graphs": [graph...], "ops": [["add", i, triple] | ["rem", i, triple] | ["cmp", i, j]], "fam": str}
+    def gen(self, rng, i):
+        r = rng.random()
+        if r < 0.35:
+            e1, e2, n = rng.choice(TWINS)
+            e1, e2 = list(e1), list(e2)
+            if rng.random() < 0.5:
+                e1, e2 = e2, e1
+            fam = "twins"
+        elif r < 0.6:
+            n = rng.choice([4, 6, 6, 8, 8])
+            e1 = cyc(list(range(n)))
+            k = n // 2 - 1  # two equal cycles: unequal parts / a self-loop remainder are the region of finding FC14b
+            e2 = cyc(list(range(k + 1))) + cyc(list(range(k + 1, n)))
+            fam = "cycle"
+        else:
+            fam, e1, n = structures(rng)
+            e1 = decorate(rng, e1, n)
+            e2 = perturb(rng, e1, n)
+        pools = []
+        for k in range(3):
+            pool = list(range(10 * k, 10 * k + n)) if rng.random() < 0.6 else list(range(n))
+            rng.shuffle(pool)
+            pools.append(pool)
+        graphs = [realise(rng, e1, pools[0]), realise(rng, e1, pools[1]), realise(rng, e2, pools[2])]
+        cur = [[list(map(list, t)) for t in g] for g in graphs]
+        ops = []
+
+        def cmps():
+            for j in rng.sample([1, 2], rng.choice([1, 2, 2])):
+                ops.append(["cmp", 0, j] if rng.random() < 0.8 else ["cmp", j, 0])
+
+        def rewire(k):
+            g = cur[k]
+            bb = [t for t in g if t[0][0] == 1 and t[2][0] == 1]
+            for _ in range(12):
+                if len(bb) < 2:
+                    break
+                t1, t2 = rng.sample(bb, 2)
+                if fam == "cycle" and k == 0 and rng.random() < 0.5:
+                    # the targeted cut of a cycle into two cycles
+                    nxt = {t[0][1]: t for t in bb}
+                    t2 = nxt.get(t1[2][1], t2)
+                    t2 = nxt.get(t2[2][1], t2)
+                n1, n2 = [t1[0], t1[1], t2[2]], [t2[0], t2[1], t1[2]]
+                if t1 != t2 and t1[1] == t2[1] and n1 not in g and n2 not in g and n1 != n2:
+                    for t in (t1, t2):
+                        g.remove(t)
+                        ops.append(["rem", k, t])
+                    for t in (n1, n2):
+                        g.append(t)
+                        ops.append(["add", k, t])
+                    return True
+            return False
+
+        cmps()
+        undo_from = len(ops)
+        for _ in range(rng.choice([1, 1, 2, 3])):
+            k = 0 if rng.random() < 0.75 else rng.choice([1, 2])
+            r2 = rng.random()
+            if r2 < 0.7:
+                rewire(k)
+            elif r2 < 0.85 and cur[k]:
+                t = rng.choice(cur[k])
+                cur[k].remove(t)
+                ops.append(["rem", k, t])
+            else:
+                t = [B(rng.choice(pools[k])), C(rng.choice([P, Q])), rng.choice([B(rng.choice(pools[k])), C(1), C(5)])]
+                if t not in cur[k]:
+                    cur[k].append(t)
+                ops.append(["add", k, t])  # possibly a re-add of a present triple
+            cmps()
+        if rng.random() < 0.4:
+            # undo every edit in reverse order: back to the initial contents, compare again
+            for o in reversed(ops[undo_from:]):
+                if o[0] == "add":
+                    ops.append(["rem", o[1], o[2]])
+                elif o[0] == "rem":
+                    ops.append(["add", o[1], o[2]])
+            cmps()
+        return {"graphs": graphs, "ops": ops, "fam": fam}
+
+    def run_impl(self, case):
+        objs = [to_isomorphic(build(g)) for g in case["graphs"]]
+        out = []
+        for o in case["ops"]:
+            try:
+                if o[0] == "add":
+                    objs[o[1]].add(tuple(to_term(x) for x in o[2]))
+                elif o[0] == "rem":
+                    objs[o[1]].remove(tuple(to_term(x) for x in o[2]))
+                else:
+                    out.append([bool(objs[o[1]] == objs[o[2]]), bool(objs[o[1]] != objs[o[2]])])
+            except Exception:  # noqa: BLE001
+                if o[0] == "cmp":
+                    out.append([False, False])
+        return out
+
+    def on_timeout(self, case):
+        return [[False, False]]
+
+    def coq_case(self, case):
+        ops = []
+        for o in case["ops"]:
+            if o[0] == "add":
+                ops.append(f"HAdd {cN(o[1])} {ctuple(*(c_term(x) for x in o[2]))}")
+            elif o[0] == "rem":
+                ops.append(f"HRem {cN(o[1])} {ctuple(*(c_term(x) for x in o[2]))}")
+            else:
+                ops.append(f"HCmp {cN(o[1])} {cN(o[2])}")
+        return "{| h_graphs := " + clist(c_graph(g) for g in case["graphs"]) + "; h_ops := " + clist(ops) + " |}"
+
+    def coq_obs(self, o):
+        return clist(ctuple(cbool(a), cbool(b)) for a, b in o)
+
+    def nontrivial(self, case, obs):
+        kinds = [o[0] for o in case["ops"]]
+        return "cmp" in kinds and ("add" in kinds or "rem" in kinds)
+
+    def features(self, case, obs):
+        ops = case["ops"]
+        sizepres = 0
+        for k in range(len(ops) - 3):
+            if [o[0] for o in ops[k:k + 4]] == ["rem", "rem", "add", "add"]:
+                sizepres += 1
+        flips = sum(1 for a, b in zip(obs, obs[1:]) if a != b)
+        return {"fam_" + case.get("fam", "?").split("+")[0]: 1, "comparisons": sum(1 for o in ops if o[0] == "cmp"),
+                "edits": sum(1 for o in ops if o[0] != "cmp"), "size_preserving_rewirings": sizepres,
+                "verdict_changes": flips, "impl_eq_true": sum(1 for a, _ in obs if a)}
+
+    def shrink(self, case):
+        ops = case["ops"]
+        for i in range(len(ops)):
+            yield dict(case, ops=ops[:i] + ops[i + 1:])
+        for k, g in enumerate(case["graphs"]):
+            for i in range(len(g)):
+                gs = list(case["graphs"])
+                gs[k] = g[:i] + g[i + 1:]
+                yield dict(case, graphs=gs)
+
+
+SUITES = [C14(), C14Skolem(), C14History()]
